@@ -139,7 +139,7 @@ def _scenario_job(j):
     i, kind = j
     sc = _SCENARIOS[i]
     try:
-        r = run_query(sc, kind, getattr(sc, "timeout_ms", 150000))
+        r = run_query(sc, kind, getattr(sc, "timeout_ms", 450000))
     except Unsupported as e:
         return {"scenario": sc.name, "kind": kind, "unsupported": str(e)}
     out = {"r": r}
